@@ -39,6 +39,9 @@ type lcScenario struct {
 	clients [][]lcClientOp
 	spawnBy []int // which client spawns spec i (-1: main before clients start)
 	crashN  map[string]int
+	// cancelAfter >= 0: some actors are spawned WithContext(user context), which
+	// the application cancels after this much simulated time
+	cancelAfter time.Duration
 }
 
 func genLifecycle(rc *core.RunCtx, env *Env, p lcParams) *lcScenario {
@@ -116,7 +119,7 @@ func genLifecycle(rc *core.RunCtx, env *Env, p lcParams) *lcScenario {
 	}
 	if p.stopCrash {
 		for _, sp := range sc.specs {
-			for inc := 0; inc < 3; inc++ {
+			for inc := 0; inc < 5; inc++ {
 				if g.Bool(0.4) {
 					sp.PanicStopped[inc] = true
 				}
@@ -207,6 +210,32 @@ func genLifecycle(rc *core.RunCtx, env *Env, p lcParams) *lcScenario {
 				n++
 			}
 		}
+		// sometimes one of its children runs out of budget as well, at about the
+		// same time, and takes a while to handle Stopped: the parent's shutdown
+		// then meets a child that is already shutting down
+		for _, sp := range sc.specs {
+			if sp.FullID() != exceedTarget || len(sp.Children) == 0 || !g.Bool(0.5) {
+				continue
+			}
+			ch := sp.Children[g.IntN(len(sp.Children))]
+			ch.SlowStopped = g.Range(1, 4)
+			src2 := fmt.Sprintf("c%dy", c)
+			for i := 0; i <= ch.MaxRestarts; i++ {
+				m := env.NewMsg(src2, i)
+				m.Op = cPanic
+				sc.crashN[ch.FullID()]++
+				pos := g.IntN(len(sc.clients[c]) + 1)
+				op := lcClientOp{kind: 0, target: ch.FullID(), msg: m}
+				sc.clients[c] = append(sc.clients[c][:pos], append([]lcClientOp{op}, sc.clients[c][pos:]...)...)
+			}
+			n2 := 0
+			for i := range sc.clients[c] {
+				if sc.clients[c][i].kind == 0 && sc.clients[c][i].msg.Src == src2 {
+					sc.clients[c][i].msg.N = n2
+					n2++
+				}
+			}
+		}
 	}
 	for range sc.specs {
 		if g.Bool(0.6) {
@@ -214,6 +243,14 @@ func genLifecycle(rc *core.RunCtx, env *Env, p lcParams) *lcScenario {
 		} else {
 			sc.spawnBy = append(sc.spawnBy, g.IntN(nclients))
 		}
+	}
+	sc.cancelAfter = -1
+	if g.Bool(0.25) {
+		for _, sp := range sc.specs {
+			sp.UserCtx = g.Bool(0.6)
+		}
+		sc.cancelAfter = []time.Duration{0, 200 * time.Microsecond, 100 * time.Millisecond}[g.IntN(3)]
+		rc.Scen("some actors are spawned WithContext; the application cancels that context after %v", sc.cancelAfter)
 	}
 	for i, sp := range sc.specs {
 		rc.Scen("actor %s maxRestarts=%d delay=%v inbox=%d mw=%d children=%d panicInit=%v panicStarted=%v spawnBy=%d crashes=%d",
@@ -273,6 +310,17 @@ func runLifecycle(p lcParams) func(rc *core.RunCtx) {
 				rc.Block("step budget exhausted (unbounded activity)")
 			}
 		}
+		if sc.cancelAfter >= 0 {
+			// the application cancels the context some actors were spawned with
+			// (actor.WithContext): not a stop request, nothing about the actor's
+			// life cycle may depend on it
+			simrt.Go("app-cancels-its-context", func() {
+				simrt.Sleep(sc.cancelAfter)
+				simrt.Fault("user-context-cancelled")
+				env.UserContext()
+				env.CancelUserContext()
+			})
+		}
 		for i, sp := range sc.specs {
 			if sc.spawnBy[i] == -1 {
 				env.Spawn(sp)
@@ -321,7 +369,7 @@ func runLifecycle(p lcParams) func(rc *core.RunCtx) {
 			}
 		}
 		simrt.WaitQuiet(time.Hour)
-		if p.stopCrash {
+		if p.stopCrash && p.focus != "C06" {
 			// only containment is asserted here: the process survives (PostRun),
 			// callers return, and a bystander actor still works
 			by := &Spec{Kind: "act", ID: "bystander", MaxRestarts: 1, InboxSize: 4, PanicInit: map[int]bool{}, PanicStarted: map[int]bool{}, PanicStopped: map[int]bool{}}
@@ -883,7 +931,7 @@ func init() {
 		Doc: base + "as 'restart', with Stop/Poison callers: crashes while the batch behind a poison pill is drained, pills in the restart buffer; oracle (the parts that hold whether or not the actor is being stopped): no un-recovered panic, no message delivered twice, the crashing message never redelivered, Stopped to every failed incarnation",
 		Faults: []string{"actor-crash-in-Initialized", "actor-crash-in-Started", "actor-crash-in-Receive", "concurrent stop/poison"}})
 	core.Register(&core.Profile{Property: "C05", Name: "crash-in-Stopped", Weight: 1, Cfg: cfgEngine,
-		Run: runLifecycle(lcParams{focus: "C05", crashes: true, stops: true, stopCrash: true}),
+		Run: runLifecycle(lcParams{focus: "C05", crashes: true, stops: true, stopCrash: true, internal: true}),
 		Doc: base + "receivers that panic while handling Stopped (after a crash, on stop, on poison); oracle: containment only - no un-recovered panic, every caller returns, a bystander actor is still served",
 		Faults: []string{"actor-crash-in-Stopped", "actor-crash-in-Receive", "concurrent stop/poison"}})
 	core.Register(&core.Profile{Property: "C06", Name: "budget", Weight: 4, Cfg: cfgEngine,
@@ -894,6 +942,10 @@ func init() {
 		Run: runLifecycle(lcParams{focus: "C06", crashes: true, lifeCrashes: true, exceed: true, internal: true}),
 		Doc: base + "as 'budget', with restarts caused by *actor.InternalError mixed in at any point (they do not count, and they must not disturb the count: the budget-exhausting ordinary crash still ends the actor)",
 		Faults: []string{"actor-crash-InternalError", "actor-crash-in-Initialized", "actor-crash-in-Started", "actor-crash-in-Receive", "restart-budget-exceeded"}})
+	core.Register(&core.Profile{Property: "C06", Name: "budget-stopped-panics", Weight: 1, Cfg: cfgEngine,
+		Run: runLifecycle(lcParams{focus: "C06", crashes: true, lifeCrashes: true, exceed: true, stopCrash: true}),
+		Doc: base + "as 'budget', with receivers that also panic while handling Stopped - in particular the final Stopped after the budget is exhausted: the actor is still unregistered, its events are published, later sends dead-letter",
+		Faults: []string{"actor-crash-in-Stopped", "actor-crash-in-Initialized", "actor-crash-in-Started", "actor-crash-in-Receive", "restart-budget-exceeded"}})
 	core.Register(&core.Profile{Property: "C06", Name: "budget-with-poison", Weight: 2, Cfg: cfgEngine,
 		Run: runLifecycle(lcParams{focus: "C06", crashes: true, lifeCrashes: true, exceed: true, stops: true}),
 		Doc: base + "as 'budget', with Stop/Poison callers: the budget-exhausting crash may happen while the batch behind a poison pill is drained or on a message replayed from the restart buffer next to a pill; oracle: the clauses of 'budget' that hold whether or not a stop is in progress, and the process survives",
